@@ -150,6 +150,15 @@ def readFull (n : Nat) (s : Bytes) (e : End) : Full :=
     | .stall => .stall
     | .eof => if s.length = 0 then .eof else .ueof
 
+/-- `io.ReadFull` over a connection whose `Read` calls return the stream piece by piece (`chunks`):
+gather `need` bytes, return them and what is left of the chunk list -/
+def gather : List Bytes → Nat → Bytes → Option (Bytes × List Bytes)
+  | [], need, acc => if need = 0 then some (acc, []) else none
+  | c :: cs, need, acc =>
+    if need = 0 then some (acc, c :: cs)
+    else if c.length ≤ need then gather cs (need - c.length) (acc ++ c)
+    else some (acc ++ c.take need, c.drop need :: cs)
+
 def le32 (a b c d : UInt8) : Nat :=
   a.toNat + 256 * b.toNat + 65536 * c.toNat + 16777216 * d.toNat
 
